@@ -204,7 +204,8 @@ Definition is_default (o : op) : bool :=
   match o with
   | AddLocalEntity _ | AddLocalFeature _ _ _ | AddFunction _ _ _ _ _
   | BindCall _ _ _ _ | BindDelete _ _ _ _ | ListBinds _ | LocalSubscribe _ _ _ | LocalBind _ _ _
-  | HasLocalSub _ _ _ | HasLocalBind _ _ _ | ReadData _ _ _ | Resolve _ _ => true
+  | HasLocalSub _ _ _ | HasLocalBind _ _ _ | ReadData _ _ _ | Resolve _ _
+  | LocalUnsubscribe _ _ _ | LocalUnbind _ _ _ => true
   | _ => false
   end.
 
@@ -241,6 +242,16 @@ Proof.
   - cbn [step]. destruct (find_lfeat s e (Some f)) as [lf|]; [destruct (assoc_N fn (lf_data lf))|];
       split; try reflexivity; split; reflexivity.
   - cbn [step]. split; [reflexivity | split; reflexivity].
+  - (* LocalUnsubscribe *)
+    cbn [step]. unfold local_unrequest.
+    destruct (find_lfeat s e (Some f)) as [lf|]; [|split; [reflexivity | split; reflexivity]].
+    destruct (fa_dev r); [|split; [reflexivity | split; reflexivity]].
+    destruct (peer_by_addr s n); split; try reflexivity; split; reflexivity.
+  - (* LocalUnbind *)
+    cbn [step]. unfold local_unrequest.
+    destruct (find_lfeat s e (Some f)) as [lf|]; [|split; [reflexivity | split; reflexivity]].
+    destruct (fa_dev r); [|split; [reflexivity | split; reflexivity]].
+    destruct (peer_by_addr s n); split; try reflexivity; split; reflexivity.
 Qed.
 
 Lemma existsb_abs_reg s m (P : sentry -> bool) (Q : entry -> bool) :
